@@ -74,7 +74,7 @@ impl FaultScenario {
 			Fault::Garbage(a, t) => env.push(EnvEvent::Raw { after: *a, text: t.to_string() }),
 		}
 		let late_after = env.len();
-		CliScenarioCfg { id_kind: self.id_kind, ops: self.ops.clone(), env, fail_send_at, tx_points: self.tx_points, buffer_cap: 4, late_after }
+		CliScenarioCfg { rx_split: false, ping_ms: None, warmup: 0, id_kind: self.id_kind, ops: self.ops.clone(), env, fail_send_at, tx_points: self.tx_points, buffer_cap: 4, late_after }
 	}
 }
 
@@ -291,7 +291,7 @@ impl Scenario for HostileScenario {
 		ops.push(FeOp::LateCall);
 		let sends = self.pending.len();
 		let env = vec![EnvEvent::Raw { after: sends, text: self.text.clone() }, EnvEvent::Answer { msg: sends, kind: AnswerKind::Ok }];
-		clim::setup(&CliScenarioCfg { id_kind: IdKind::Number, ops, env, fail_send_at: None, tx_points: false, buffer_cap: 4, late_after: 1 })
+		clim::setup(&CliScenarioCfg { rx_split: false, ping_ms: None, warmup: 0, id_kind: IdKind::Number, ops, env, fail_send_at: None, tx_points: false, buffer_cap: 4, late_after: 1 })
 	}
 	fn judge(&self, st: CliState, _trace: &[String], panics: &[String], status: Status) -> Verdict {
 		let mut v = Vec::new();
@@ -387,7 +387,7 @@ pub fn check(rep: &Reporter) {
 		use jsonrpsee_core::client::{ClientT, SubscriptionClientT};
 		let rt = tokio::runtime::Builder::new_current_thread().enable_all().build().unwrap();
 		let res = rt.block_on(async {
-			let shared = std::sync::Arc::new(clim::Shared {
+			let shared = std::sync::Arc::new(clim::Shared { rx_split: false,
 				sent: Default::default(),
 				send_calls: Default::default(),
 				fail_send_at: None,
